@@ -30,6 +30,7 @@
 
 import abc
 import dis
+import math
 import inspect
 import threading
 from enum import Enum
@@ -133,7 +134,7 @@ class LocationAction(object):
 
         :return: the time in ms
         """
-        return self.__get_int(FIRE_PERIOD, 1000)
+        return self.__get_int(FIRE_PERIOD, 1000, round_up=True)
 
     @property
     def action_type(self) -> ActionType:
@@ -216,10 +217,27 @@ class LocationAction(object):
         """
         self.__stats.fire(ts)
 
-    def __get_int(self, name: str, default_value: int):
+    def __get_int(self, name: str, default_value: int, round_up: bool = False):
+        """
+        Get a setting as a whole number.
+
+        The service sends text, an application that registers a tracepoint can give anything. What cannot be read as
+        a number (text, None, infinity, a list) is not usable: the default stands in, it must not raise on every hit.
+        A fraction is no count either; as a period it is rounded up, never down - collections are not to be closer
+        than the period.
+
+        :param name: the name of the setting
+        :param default_value: the value to use, if the setting is not given or not usable
+        :param round_up: the setting is a lower bound: a fraction counts as the next whole number
+        :return: the value of the setting
+        """
+        value = self.__config.get(name, default_value)
         try:
-            return int(self.__config.get(name, default_value))
-        except ValueError:
+            number = int(value)
+            if isinstance(value, float) and value != number:
+                return math.ceil(value) if round_up else default_value
+            return number
+        except (ValueError, TypeError, OverflowError):
             return default_value
 
     def __str__(self):
